@@ -19,6 +19,7 @@
 //   setup  <names...>            names from {P c A b G h lb ub}: which arguments are passed
 //   update <reuse 0|1> <names...>
 //   solve
+//   fail | fail from <k> | fail at <i...>   factorisation calls of the following solves that are made to fail (hook)
 //   probe                        instrument self-test (known allocations inside an armed region)
 // stdout: "case <name>", one line per op.  update/solve lines carry the counters of that armed call:
 //   malloc= free= calloc= realloc= memalign= new= delete= bytes= bt=<hits>x<return addresses>;...  (up to 8 distinct call stacks of allocating/freeing events)
@@ -138,6 +139,25 @@ static inline void disarm() { __sync_synchronize(); g_armed = 0; __sync_synchron
 
 // ------------------------------------------------------------------ PIQP
 #include "piqp/piqp.hpp"
+
+// fault injection (verification hook of /repo, guard PIQP_VERIF): factorisation calls of the next solve() whose index
+// (0-based, counted from the start of that solve) is selected report a failure.  No allocation in the predicate.
+#if defined(PIQP_VERIF) && __has_include("piqp/verif_hooks.hpp")
+#define HAVE_FAIL_HOOK 1
+#else
+#define HAVE_FAIL_HOOK 0
+#endif
+static long g_fact_calls = 0;
+static long g_fail_from = -1;            // every call with index >= g_fail_from fails (if >= 0)
+static unsigned char g_fail_at[512];     // g_fail_at[i] != 0: call i fails
+static long g_faults_injected = 0;
+static bool fail_pred()
+{
+    long i = g_fact_calls++;
+    bool f = (g_fail_from >= 0 && i >= g_fail_from) || (i < 512 && g_fail_at[i]);
+    if (f) g_faults_injected++;
+    return f;
+}
 
 #ifndef HBE
 #define HBE 0
@@ -283,11 +303,13 @@ struct Runner : IRunner {
     void solve() override
     {
         fflush(stdout);
+        g_fact_calls = 0;
+        g_faults_injected = 0;
         arm();
         Status st = solver.solve();
         disarm();
-        char head[96];
-        snprintf(head, sizeof head, "solve status=%d iter=%ld", (int) st, (long) solver.result().info.iter);
+        char head[128];
+        snprintf(head, sizeof head, "solve status=%d iter=%ld faults=%ld", (int) st, (long) solver.result().info.iter, g_faults_injected);
         print_counts(head);
     }
 };
@@ -373,7 +395,13 @@ int main(int argc, char** argv)
         char* cmd = t.next();
         if (!cmd || cmd[0] == '#') continue;
         std::string c(cmd);
-        if (c == "case") { char* nm = t.next(); printf("case %s\n", nm ? nm : "?"); pre = 0; fresh(); }
+        if (c == "case") {
+            char* nm = t.next(); printf("case %s\n", nm ? nm : "?"); pre = 0; fresh();
+            memset(g_fail_at, 0, sizeof g_fail_at); g_fail_from = -1;
+#if HAVE_FAIL_HOOK
+            piqp_verif::fail_hook() = nullptr;
+#endif
+        }
         else if (c == "pre") { pre = (int) t.nat(); fresh(); }
         else if (c == "set") { char* k = t.next(); double v = t.num(); if (!run->set(k, v)) printf("error: unknown setting %s\n", k); }
         else if (c == "smat") {
@@ -398,6 +426,20 @@ int main(int argc, char** argv)
         else if (c == "update") { bool reuse = t.nat() != 0; run->update(parse_mask(t), reuse); }
         else if (c == "solve") { run->solve(); }
         else if (c == "probe") { probe(); }
+        else if (c == "fail") {
+            // fail                -> no injected failures;   fail from <k>   |   fail at <i1> <i2> ...
+            memset(g_fail_at, 0, sizeof g_fail_at);
+            g_fail_from = -1;
+            char* w = t.next();
+            if (w && std::string(w) == "from") g_fail_from = t.nat();
+            else if (w && std::string(w) == "at") { while (char* q = t.next()) { long i = strtol(q, nullptr, 10); if (i >= 0 && i < 512) g_fail_at[i] = 1; } }
+#if HAVE_FAIL_HOOK
+            piqp_verif::fail_hook() = (w ? &fail_pred : nullptr);
+            printf("fail hook=1\n");
+#else
+            printf("fail hook=0\n");
+#endif
+        }
         else printf("error: unknown command %s\n", cmd);
     }
     run.reset();
